@@ -77,11 +77,12 @@ func sendFlow(l *h2peer.Ledger, u *up, flow int64, pad bool, rng *rand.Rand, end
 }
 
 type rcx struct {
-	c       *recvCase
-	l       *h2peer.Ledger
-	rng     *rand.Rand
-	advConn int64 // 65535 + the stream-0 increments received during setup
-	pre     string
+	c        *recvCase
+	l        *h2peer.Ledger
+	rng      *rand.Rand
+	advConn  int64 // 65535 + the stream-0 increments received during setup
+	released bool  // T: the held client has been released
+	pre      string
 }
 
 func (r *rcx) logf(format string, a ...any) {
@@ -179,9 +180,9 @@ func (r *rcx) refused(sid uint32, q *treq) *finding {
 	case !ga && l.EOF() && q != nil:
 		// transport: connection error, GOAWAY buffered but never flushed; the
 		// client side must report the flow-control error.
-		if q.hold != nil {
+		if !r.released {
+			r.released = true
 			close(q.hold)
-			q.hold = nil
 		}
 		if !waitCh(q.done) {
 			return &finding{class: r.pre + "client", msg: "client goroutine did not return: " + r.ended(), incon: r.ended() == ""}
@@ -231,7 +232,7 @@ func runRecvS(c *recvCase) *finding {
 	l := s.l
 	r := &rcx{c: c, l: l, rng: rng, pre: "S/recv/" + c.Kind + "/"}
 	r.advConn = l.ConnSendAllowance()
-	defer func() { collectStats(l, "S"); run.Add("handler-starts", s.starts) }()
+	defer func() { collectStats(l, "S"); run.Add("handler-starts", s.nStarts()) }()
 	r.logf("advertised: stream %d, connection %d, max frame %d", l.ImplInitialWindow(), r.advConn, l.ImplMaxFrame())
 	if got, want := l.ImplInitialWindow(), int64(c.UpStr); want > 0 && got != want {
 		return &finding{class: r.pre + "setup", msg: fmt.Sprintf("server advertised stream window %d, configured %d", got, want), incon: true}
@@ -282,9 +283,7 @@ func runRecvS(c *recvCase) *finding {
 				binding = "stream"
 			}
 			r.logf("window full (binding: %s); overshoot %q on stream %d", binding, c.Over, u.sid)
-			if err := r.overshoot(u); err != nil {
-				return &finding{class: r.pre + "write", msg: err.Error(), incon: true}
-			}
+			r.overshoot(u) // a write error means the connection was torn down: judged by refused()
 			run.Add("receiver-overshoot-cases", 1)
 			run.Add("receiver-overshoot-"+binding+"-window", 1)
 			if f := r.refused(u.sid, nil); f != nil {
@@ -546,7 +545,7 @@ func runRecvT(c *recvCase) *finding {
 	l := t.l
 	r := &rcx{c: c, l: l, rng: rng, pre: "T/recv/" + c.Kind + "/"}
 	r.advConn = l.ConnSendAllowance()
-	defer func() { collectStats(l, "T"); run.Add("transport-requests", t.starts) }()
+	defer func() { collectStats(l, "T"); run.Add("transport-requests", t.nStarts()) }()
 	r.logf("advertised: stream %d, connection %d, max frame %d", l.ImplInitialWindow(), r.advConn, l.ImplMaxFrame())
 	keyBase := uint64(rng.Int63())
 	open := func(idx int, q *treq) (*up, *finding) {
@@ -581,15 +580,13 @@ func runRecvT(c *recvCase) *finding {
 		run.Add("receiver-exact-fill-accepted", 1)
 		if c.Kind == "stream-fill" {
 			r.logf("stream window full after %d bytes; overshoot %q", u.off, c.Over)
-			if err := r.overshoot(u); err != nil {
-				return &finding{class: r.pre + "write", msg: err.Error(), incon: true}
-			}
+			r.overshoot(u) // a write error means the connection was torn down: judged by refused()
 			run.Add("receiver-overshoot-cases", 1)
 			run.Add("receiver-overshoot-stream-window", 1)
 			return r.refused(u.sid, q)
 		}
+		r.released = true
 		close(q.hold)
-		q.hold = nil
 		total := u.off + int64(rng.Intn(2<<20))
 		for u.off < total {
 			var a int64
@@ -652,8 +649,8 @@ func runRecvT(c *recvCase) *finding {
 		if retConn < padFlow-creditBound || st.ImplGrants < padFlow-creditBound {
 			return &finding{class: r.pre + "padding-not-refunded", msg: fmt.Sprintf("%d bytes of padding sent (client not reading), credit returned: connection %d, stream %d (< padding - %d)", padFlow, retConn, st.ImplGrants, creditBound)}
 		}
+		r.released = true
 		close(q.hold)
-		q.hold = nil
 		l.Data(u.sid, true, nil, -1)
 		if !waitCh(q.done) {
 			return &finding{class: r.pre + "client", msg: "client goroutine did not return: " + r.ended(), incon: r.ended() == ""}
@@ -698,7 +695,6 @@ func runRecvT(c *recvCase) *finding {
 			if c.Sub == "peer-reset" {
 				l.Reset(u.sid, http2.ErrCodeCancel)
 				close(q.hold)
-				q.hold = nil
 			}
 			if !waitCh(q.done) {
 				return &finding{class: r.pre + "client", msg: "client goroutine did not return: " + r.ended(), incon: r.ended() == ""}
